@@ -657,6 +657,25 @@ def _shape(t):
     return " ".join(out[:4]) or t.op
 
 
+def _module_functions(R):
+    """(qualified name, ast.FunctionDef) of every function and method of the module that holds the reader."""
+    import ast as _ast
+    mod = R.fi.module
+    prog = R.I.prog if hasattr(R.I, "prog") else None
+    tree = prog.modules[mod].tree if prog is not None and mod in prog.modules else None
+    out = []
+    if tree is None:
+        return out
+    for node in tree.body:
+        if isinstance(node, _ast.FunctionDef):
+            out.append((node.name, node))
+        if isinstance(node, _ast.ClassDef):
+            for sub in node.body:
+                if isinstance(sub, _ast.FunctionDef):
+                    out.append(("%s.%s" % (node.name, sub.name), sub))
+    return out
+
+
 # ---------------------------------------------------------------------------- reader
 def _reader_rules(R, C, info):
     where = R.fi.fq
@@ -701,6 +720,22 @@ def _reader_rules(R, C, info):
     C.ok(size_val is not None, "R-C11-a", where, "reader field 2 (payload size, <Q) matches the specification", "", "")
     if size_val is None:
         return
+    # nothing on the load path is memoised: a mapping (or anything read from the file) cached under a key that does not
+    # identify the file's CONTENT - a descriptor number, a length - is handed out again for another, shorter file, and
+    # the mmap length check that rejects a torn file is never executed for it
+    import ast as _ast
+    prog_mod = R.prog.modules.get("indxio") if hasattr(R, "prog") else None
+    for fn_name, fnode in _module_functions(R):
+        decos = [_ast.unparse(d) for d in fnode.decorator_list]
+        memo = [d for d in decos if d.split("(")[0].split(".")[-1] in ("lru_cache", "cache", "cached_property", "memoize")]
+        if not memo:
+            continue
+        src = _ast.unparse(fnode)
+        io = [k for k in ("mmap.mmap", ".read(", "fromfile", "memmap", "frombuffer", "unpack") if k in src]
+        if io:
+            C.add("R-C12-a", VIOLATED, "indxio:%s@%d" % (fn_name, fnode.lineno), "the mapping of the file is made afresh on every load",
+                  "%s is memoised (@%s) although it maps / reads the file (%s): a second load whose key (descriptor number, length) coincides gets the EARLIER file's mapping, so a torn file is parsed from the complete one's bytes "
+                  "and the length check never runs" % (fn_name, memo[0], io[0]), {"example": "load(F) succeeds; F is closed; a strict prefix of F opened next gets the same descriptor number and loads"})
     # numpy.memmap in a writable mode does not reject a short file: it EXTENDS it with zeros to the requested shape
     for ev in R.I.events:
         if ev.kind == "call" and ev["name"] == "numpy.memmap":
